@@ -190,8 +190,12 @@ def run_case(case):
         except Exception as exc:  # noqa: BLE001
             obs["local_reference_failed"] = 1
             obs["local_reference_error"] = [f"{type(exc).__name__}: {str(exc)[:80]}"]
-        for url in (f"{srv.base}/ds", f"{srv.base}/ds/", f"precomputed://{srv.base}/ds"):
+        # the same directory is also served under names that need percent-escapes in a URL
+        srv.httpd.aliases = {"my data": "ds", "donn\u00e9es+v1": "ds"}
+        for url in (f"{srv.base}/ds", f"{srv.base}/ds/", f"precomputed://{srv.base}/ds",
+                    f"{srv.base}/my%20data", f"{srv.base}/donn%C3%A9es%2Bv1/"):
             obs["url_spellings"] += 1
+            obs["percent_escaped_urls"] = obs.get("percent_escaped_urls", 0) + ("%" in url)
             try:
                 h = accessor_mod.get_accessor_for_url(url)
             except Exception as exc:  # noqa: BLE001
